@@ -1215,9 +1215,15 @@ func representableConst(c constant.Value, t reflect.Type) bool {
 		}
 		switch t.Kind() {
 		case reflect.Int, reflect.Int8, reflect.Int16, reflect.Int32, reflect.Int64:
-			if _, ok := constant.Int64Val(x); !ok {
+			i, ok := constant.Int64Val(x)
+			if !ok {
 				return false
 			}
+			// A signed type of w bits holds -2^(w-1) .. 2^(w-1)-1.
+			if w := bitlen[t.Kind()]; w < 64 {
+				return i >= -(1<<(w-1)) && i < 1<<(w-1)
+			}
+			return true
 		case reflect.Uint, reflect.Uint8, reflect.Uint16, reflect.Uint32, reflect.Uint64, reflect.Uintptr:
 			if _, ok := constant.Uint64Val(x); !ok {
 				return false
